@@ -137,3 +137,21 @@ Proof.
     apply andb_prop in R as [R1 R2]. apply Z.leb_le in R1, R2.
     assert (ts_gate (t - d) = true) by (apply gate_iff; lia). congruence.
 Qed.
+
+(* durations with a fractional / negative part (serde route): whole-second durations behave as the integer arithmetic, the result is always
+   inside the range, and a fraction never moves the result by more than one second *)
+Theorem checked_add_ns_whole t secs : ts_checked_add_ns t secs 0 = ts_checked_add t secs.
+Proof. unfold ts_checked_add_ns, ts_checked_add, NS. replace (t * 1000000000 + (secs * 1000000000 + 0)) with ((t + secs) * 1000000000) by lia. rewrite Z.div_mul by lia. reflexivity. Qed.
+Theorem checked_sub_ns_whole t secs : ts_checked_sub_ns t secs 0 = ts_checked_sub t secs.
+Proof. unfold ts_checked_sub_ns, ts_checked_sub, NS. replace (t * 1000000000 - (secs * 1000000000 + 0)) with ((t - secs) * 1000000000) by lia. rewrite Z.div_mul by lia. reflexivity. Qed.
+Theorem checked_add_ns_in_range t secs nanos x : ts_checked_add_ns t secs nanos = Some x -> ts_gate x = true.
+Proof. unfold ts_checked_add_ns. destruct (ts_gate _) eqn:E; [|discriminate]. intros H; inversion H; subst. exact E. Qed.
+Theorem checked_sub_ns_in_range t secs nanos x : ts_checked_sub_ns t secs nanos = Some x -> ts_gate x = true.
+Proof. unfold ts_checked_sub_ns. destruct (ts_gate _) eqn:E; [|discriminate]. intros H; inversion H; subst. exact E. Qed.
+Theorem checked_add_ns_floor t secs nanos x : -1000000000 < nanos < 1000000000 -> ts_checked_add_ns t secs nanos = Some x ->
+  t + secs - 1 <= x <= t + secs.
+Proof.
+  unfold ts_checked_add_ns, NS. intros Hn. destruct (ts_gate _); [|discriminate]. intros H; inversion H; subst x; clear H.
+  pose proof (Z.div_mod (t * 1000000000 + (secs * 1000000000 + nanos)) 1000000000 ltac:(lia)) as D.
+  pose proof (Z.mod_pos_bound (t * 1000000000 + (secs * 1000000000 + nanos)) 1000000000 ltac:(lia)) as M. lia.
+Qed.
